@@ -191,6 +191,22 @@ def affine_fields(prefix="T", identity=False):
 MATH = {"pi": 3.141592653589793}
 
 
+def ext_isfinite(x, args, kwargs, st, n):
+    return VBool(x.as_num(st, args[0], n).finite)
+
+
+def ext_isnan(x, args, kwargs, st, n):
+    return VBool(x.as_num(st, args[0], n).nan)
+
+
+def ext_opaque_num(name):
+    def h(x, args, kwargs, st, n):
+        for a in args: x.as_num(st, a, n)
+        v, _ = sym_num(name, finite=True)
+        return v
+    return h
+
+
 def install(x, ctx=None):
     c = x.contracts
     c[("DefaultFormatter", "parameters")] = h_fmt_parameters
@@ -209,6 +225,10 @@ def install(x, ctx=None):
     x.ext_names["gcode_table"] = VRef("GCodeTable", -1)
     x.ext_names["math"] = VModule("math")
     x.ext["math.pi"] = num(MATH["pi"])
+    x.ext["math.isfinite"] = ext_isfinite
+    x.ext["math.isnan"] = ext_isnan
+    x.ext["math.log2"] = ext_opaque_num("log2")      # only feeds the zero-padding width of the T word (tool_change)
+    x.ext["math.ceil"] = ext_opaque_num("ceil")
     if ctx is not None:
         ctx.trust("A-real: float arithmetic on finite values is exact real arithmetic (rounding, overflow not modelled)",
                   "A-types: @typechecked dropped; annotated parameter types are assumed (ill-typed calls raise TypeCheckError before the body)",
@@ -346,3 +366,55 @@ def unchanged_obj(h0, h1, ref, fields=None, skip=()):
         else:
             cs.append(v_same(a, b))
     return AND(*cs)
+
+
+# ---------------------------------------------------------------------------------------------- symbolic builder
+def mk_kwargs(st, keys=("X", "Y", "Z", "F", "S", "E", "K"), comment=True, prefix="kw", lower=True):
+    """**kwargs of a motion call: any subset of the keys, each an optional number (None allowed), plus comment=.
+    Keys are given in the case the callers normally use (x=, y=, z= lower case; the code upper-cases all of them)."""
+    d = VDict({}, {}); wfs = []; reals = []
+    for k in keys:
+        kk = k.lower() if (lower and k in AXES) else k
+        o, wf = opt_num(f"{prefix}_{k}"); wfs.append(wf); reals.append(o.inner.val)
+        d.present[kk] = fresh(f"{prefix}_{k}_given", z3.BoolSort()); d.vals[kk] = o
+    if comment:
+        d.present["comment"] = fresh(f"{prefix}_comment_given", z3.BoolSort())
+        d.vals["comment"] = VOpt(fresh(f"{prefix}_comment_none", z3.BoolSort()), VStr(None, fresh(f"{prefix}_comment", z3.StringSort())))
+    return st.alloc("dict", {"$d": d}), AND(*wfs), reals
+
+
+def mk_builder(st, world, transform="identity", hooks=0, cls="GCodeBuilder", prefix="g"):
+    """GCodeBuilder in an arbitrary reachable-shaped state: every tracked field symbolic; core and state share the
+    remembered-parameters dict (as they do after the first tracked move); distance modes of core and state agree
+    (wf_core: both are only ever written together, by set_distance_mode)."""
+    wfs, reals = [], []
+    pref, wf, r = mk_params(st, prefix + "P"); wfs.append(wf); reals += r
+    sref, wf, info = mk_state(st, world, prefix + "S", params_ref=pref); wfs.append(wf); reals += info["reals"]
+    fmt = st.alloc("DefaultFormatter", {})
+    tf, treals = affine_fields(prefix + "T", identity=(transform == "identity")); reals += treals
+    tr = st.alloc("CoordinateTransformer", tf)
+    axes, wf = sym_point(prefix + "_axes"); wfs.append(wf); reals += [c.inner.val for c in axes.items()]
+    dm, wf = sym_enum("DistanceMode", world, prefix + "_dm"); wfs.append(wf)
+    di, wf = sym_enum("Direction", world, prefix + "_dir"); wfs.append(wf)
+    writers = st.alloc("list", {"$len": VNum(z3.IntVal(0), fresh(prefix + "_nwriters", z3.RealSort()), True)})
+    hk = st.alloc("list", {"$l": VList([])}) if hooks == 0 else st.alloc("list", {"$len": VNum(z3.IntVal(0), z3.ToReal(hooks), True), "$sym": True})
+    fields = {"_formatter": fmt, "_transformer": tr, "_current_axes": axes, "_current_params": pref, "_distance_mode": dm,
+              "_direction": di, "_writers": writers, "_state": sref, "_hooks": hk, "_logger": NONE}
+    g = st.alloc(cls, fields)
+    tracer = st.alloc("PathTracer", {"_g": g})
+    st.heap[g.oid]["_tracer"] = tracer
+    wfs.append(st.heap[sref.oid]["_current_distance_mode"].idx == dm.idx)
+    info = dict(info); info.update(state=sref, params=pref, transformer=tr, formatter=fmt, reals=reals, tracer=tracer)
+    return g, AND(*wfs), info
+
+
+def wf_tool(world, heap, sref):
+    """tool flags are consistent: inactive <=> both start modes OFF; active => exactly one of them is set"""
+    o = heap[sref.oid]
+    s_off = o["_current_spin_mode"].idx == world.enum_index("SpinMode", "OFF")
+    p_off = o["_current_power_mode"].idx == world.enum_index("PowerMode", "OFF")
+    a = o["_is_tool_active"].t
+    c_off = o["_current_coolant_mode"].idx == world.enum_index("CoolantMode", "OFF")
+    return AND(a == NOT(AND(s_off, p_off)), OR(s_off, p_off), o["_is_coolant_active"].t == NOT(c_off))
+
+
